@@ -232,6 +232,12 @@ class Expander:
                     inlined = True
             if not inlined:
                 attr = e.attr
+                from . import normalise as _nz
+                if attr in _nz.NT_FIELDS and (isinstance(b, ast.Tuple) or any(ty[0] == "tuple" for ty in self.t.type_of(e.value, fi))):
+                    # a named position of a NamedTuple result (its construction is read as a plain tuple)
+                    ix = _nz.NT_FIELDS[attr]
+                    out.append(b.elts[ix] if isinstance(b, ast.Tuple) and ix < len(b.elts) else ast.Subscript(value=b, slice=ast.Constant(ix), ctx=ast.Load()))
+                    continue
                 if attr.startswith("__") and not attr.endswith("__"):
                     k = fi.cls or (fi.parent.cls if fi.parent else None)
                     if k is not None:
